@@ -15,6 +15,7 @@ otherwise have to know one by one (all of them seen in behaviour-preserving refa
      expression denotes.
  N5  `if E > T: T = E`  ->  `T = max(E, T)`   (monotone counter update).
  N6  `if c: x = a else: x = b`  ->  `x = a if c else b`.
+ N7  `x = None; for e in C: if cond: x = e; break`  ->  `x = next((e for e in C if cond), None)`.
 
 Line numbers of the original nodes are kept, so reports still point into the real file.  The
 rewrites never change what the code does; they only give every rule one spelling to look at.
@@ -36,6 +37,9 @@ def _simple(e) -> bool:
         return _simple(e.value)
     if isinstance(e, ast.Tuple):
         return all(_simple(x) for x in e.elts)
+    if isinstance(e, ast.Call) and isinstance(e.func, ast.Name) and e.func.id == 'getattr' and len(e.args) == 2 \
+            and not e.keywords:
+        return all(_simple(x) for x in e.args)      # pure read of a field chosen by name
     return False
 
 
@@ -163,8 +167,15 @@ class Normalizer(ast.NodeTransformer):
             stored_attrs = {ast.unparse(x) for s in body for x in ast.walk(s)
                             if isinstance(x, ast.Attribute) and isinstance(x.ctx, (ast.Store, ast.Del))}
             assigned = _assigned_names(body)
+            dyn_reads = [x for e in it.elts for x in ast.walk(e) if isinstance(x, ast.Call)]
+            dyn_bases = {b.id for c in dyn_reads for b in ast.walk(c.args[0]) if isinstance(b, ast.Name)}
+            dyn_disturbed = any(
+                (isinstance(x, ast.Attribute) and isinstance(x.ctx, (ast.Store, ast.Del)) and
+                 any(isinstance(b, ast.Name) and b.id in dyn_bases for b in ast.walk(x.value))) or
+                (isinstance(x, ast.Call) and isinstance(x.func, ast.Name) and x.func.id in ('setattr', 'delattr'))
+                for s in body for x in ast.walk(s)) if dyn_reads else False
             if not jumps and not (tnames & assigned) and not (elt_names & assigned) \
-                    and not (elt_attrs & stored_attrs):
+                    and not (elt_attrs & stored_attrs) and not dyn_disturbed:
                 out = []
                 ok = True
                 for k, e in enumerate(it.elts):
@@ -422,9 +433,49 @@ def _rename_iteration_locals(stmts, suffix, outside_reads):
     return [R().visit(s) for s in stmts]
 
 
+# ---------------------------------------------------------------------------------------------- N7
+def _search_loops(tree) -> int:
+    """x = None ; for e in C: if cond: x = e ; break      ->      x = next((e for e in C if cond), None)"""
+    count = 0
+    for parent in ast.walk(tree):
+        for fld in ('body', 'orelse', 'finalbody'):
+            blk = getattr(parent, fld, None)
+            if not (isinstance(blk, list) and blk and isinstance(blk[0], ast.stmt)):
+                continue
+            i = 0
+            while i + 1 < len(blk):
+                a, lp = blk[i], blk[i + 1]
+                if isinstance(a, ast.Assign) and len(a.targets) == 1 and isinstance(a.targets[0], ast.Name) \
+                        and isinstance(a.value, ast.Constant) and a.value.value is None \
+                        and isinstance(lp, ast.For) and not lp.orelse and isinstance(lp.target, ast.Name) \
+                        and len(lp.body) == 1 and isinstance(lp.body[0], ast.If) and not lp.body[0].orelse:
+                    x = a.targets[0].id
+                    iff = lp.body[0]
+                    b = iff.body
+                    if len(b) == 2 and isinstance(b[0], ast.Assign) and len(b[0].targets) == 1 \
+                            and isinstance(b[0].targets[0], ast.Name) and b[0].targets[0].id == x \
+                            and isinstance(b[0].value, ast.Name) and b[0].value.id == lp.target.id \
+                            and isinstance(b[1], ast.Break):
+                        gen = ast.GeneratorExp(
+                            elt=ast.Name(id=lp.target.id, ctx=ast.Load()),
+                            generators=[ast.comprehension(target=lp.target, iter=lp.iter, ifs=[iff.test], is_async=0)])
+                        new = ast.Assign(targets=[a.targets[0]],
+                                         value=ast.Call(func=ast.Name(id='next', ctx=ast.Load()),
+                                                        args=[gen, ast.Constant(value=None)], keywords=[]),
+                                         type_comment=None)
+                        ast.copy_location(new, lp)
+                        ast.fix_missing_locations(new)
+                        blk[i:i + 2] = [new]
+                        count += 1
+                        continue
+                i += 1
+    return count
+
+
 def normalize(tree: ast.Module) -> ast.Module:
     n = Normalizer()
     tree = n.visit(tree)
+    n.count += _search_loops(tree)
     cp = _CopyProp()
     for f in [x for x in ast.walk(tree) if isinstance(x, (ast.FunctionDef, ast.AsyncFunctionDef))]:
         for _ in range(3):
